@@ -16,6 +16,9 @@ pub mod scn_r3;
 pub mod scn_c14;
 pub mod scn_seq;
 pub mod scn_c18;
+pub mod scn_c18c;
+#[cfg(feature = "test-strategies")]
+pub mod scn_c18n;
 #[cfg(feature = "test-strategies")]
 pub mod scn_nf;
 #[cfg(feature = "serde")]
